@@ -186,5 +186,114 @@ c16::result c16::eval_e(std::string const &fn, char const k, params const &ps, s
     default: { std::set<int> const c(w.begin(), w.end()); return go(c); }
     }
   }
+  // ------------------------------------------------------------ aliasing: the value argument is a reference to element I of the same container
+  if ((fn == "containsat" || fn == "findoptat") && np == 1)
+  {
+    ulong const I = ps[0];
+    if (!(sq || k == 'f' || k == 's') || I > 8) return bad;
+    return with_ro(k, v, [&](auto const &c) -> std::string {
+      using elem = elem_t<decltype(c)>;
+      if constexpr (std::is_same_v<elem, int>)
+      {
+        if (I >= static_cast<ulong>(std::distance(c.begin(), c.end()))) return skip;
+        int const &value{*std::next(c.begin(), static_cast<std::ptrdiff_t>(I))};
+        if (fn == "containsat") return b01(alg::contains(c, value));
+        return opt_idx(c, alg::find_opt(c, value));
+      }
+      else
+        return bad;
+    });
+  }
+  if (fn == "indexofat" && np == 1)
+  {
+    ulong const I = ps[0];
+    if (!(k == 'v' || k == 'd' || k == 'a') || I > 8) return bad;
+    if (I >= v.size()) return skip;
+    auto const show = [](auto const &o) { return o.has_value() ? std::to_string(o.get_unsafe()) : std::string{"none"}; };
+    if (k == 'a')
+      return with_size<6>(v.size(), [&](auto n) -> std::string {
+        if constexpr (SZ(n) == 0) return skip;
+        else
+        {
+          auto const a{mk_array<SZ(n)>(v, 0)};
+          return show(alg::index_of(a, *(a.begin() + static_cast<std::ptrdiff_t>(I))));
+        }
+      });
+    return with_seq(k, v, [&](auto &c) -> std::string {
+      if constexpr (std::is_same_v<std::remove_cvref_t<decltype(c)>, std::list<int>>) return bad;
+      else return show(alg::index_of(c, c[I]));
+    });
+  }
+  if ((fn == "eqrangeat" || fn == "bsearchat") && np == 1)
+  {
+    ulong const I = ps[0];
+    if (!(sq || k == 's') || I > 8) return bad;
+    return with_seq_set(k, v, [&](auto &c) {
+      if (I >= c.size()) return skip;
+      int const &value{*std::next(c.begin(), static_cast<std::ptrdiff_t>(I))};
+      if (fn == "eqrangeat")
+      {
+        auto const r{alg::equal_range(c, value)};
+        return std::to_string(std::distance(c.begin(), r.begin())) + "," + std::to_string(std::distance(c.begin(), r.end()));
+      }
+      return opt_idx(c, alg::binary_search(c, value));
+    });
+  }
+  if (fn == "apushat" && np == 1)
+  {
+    ulong const I = ps[0];
+    if (k != 'a' || I > 8) return bad;
+    if (I >= v.size() || v.size() > 5) return skip;
+    return with_size<5>(v.size(), [&](auto n) -> std::string {
+      if constexpr (SZ(n) == 0) return skip;
+      else
+      {
+        auto a{mk_array<SZ(n)>(v, 0)};
+        auto const before{a};
+        std::string const r{ds(fcppt::array::push_back(a, *(a.begin() + static_cast<std::ptrdiff_t>(I))))};
+        return a == before ? r : r + "!source-modified";
+      }
+    });
+  }
+  if ((fn == "aappendself" || fn == "ajoinself") && np == 0)
+  {
+    if (k != 'a') return bad;
+    if (v.size() > (fn == "aappendself" ? 3U : 2U)) return skip;
+    return with_size<3>(v.size(), [&](auto n) -> std::string {
+      auto a{mk_array<SZ(n)>(v, 0)};
+      auto const before{a};
+      std::string r;
+      if (fn == "aappendself") r = ds(fcppt::array::append(a, a));
+      else if constexpr (SZ(n) <= 2) r = ds(fcppt::array::join(a, a, a));
+      else return skip;
+      return a == before ? r : r + "!source-modified";
+    });
+  }
+  if (fn == "tpushat" && np == 1)
+  {
+    ulong const I = ps[0];
+    if (k != 't' || I > 2) return bad;
+    if (I >= v.size() || v.size() > 2) return skip;
+    return with_size<2>(v.size(), [&](auto n) {
+      return with_size<1>(I, [&](auto i) -> std::string {
+        if constexpr (SZ(i) >= SZ(n)) return skip;
+        else
+        {
+          auto t{mk_tuple<SZ(n)>(v, 0)};
+          std::string const r{ds_tuple(fcppt::tuple::push_back(t, fcppt::tuple::get<SZ(i)>(t)))};
+          return ds_tuple(t) == ds(v) ? r : r + "!source-modified";
+        }
+      });
+    });
+  }
+  if (fn == "tconcatself" && np == 0)
+  {
+    if (k != 't') return bad;
+    return with_size<3>(v.size(), [&](auto n) {
+      auto t{mk_tuple<SZ(n)>(v, 0)};
+      std::string const r{ds_tuple(fcppt::tuple::concat(concat_arg(t), concat_arg(t)))};
+      return ds_tuple(t) == ds(v) ? r : r + "!source-modified";
+    });
+  }
   return std::nullopt;
 }
